@@ -14,7 +14,7 @@ LEVEL = "exploration"
 META = {
     "engine": "model-monitor",
     "technique": "runtime monitor: reference LSP client model compared with the hooked server buffer after every didChange of random edit histories",
-    "text": "Random edit histories are applied to the real LangServer; after every notification a monitor compares the server's buffer (hooked state) with a 12-line reference client. Held on K histories; the edit space is sampled, not enumerated.",
+    "text": "Random edit histories are applied to the real LangServer; after every notification a monitor compares the server's buffer (hooked state) with a 12-line reference client. Held on K histories; the edit space is sampled, not enumerated. Full-sync notifications carry 1-3 whole-document changes; some documents are opened with text that differs from the file; histories contain save and close-without-saving-then-open events.",
     "note": "trusted: the reference client (string + offsets over \\r\\n|\\n|\\r); positions after astral characters are outside the generator; CRLF-splitting edits are not generated",
 }
 RULE = ("random edit histories (1-12 didChange notifications, 1-3 contentChanges each; ranged and whole-document; "
